@@ -143,12 +143,21 @@ def run_scenario(sc, strategy=None, race=False):
     with ds.Patch(mb):
         for mi, spec in enumerate(sc['modules']):
             mods.append(make(mi, spec))
-        main = mods[0]
-        for m in mods[1:]:
-            m.io = main           # modules share the poll thread of their io module
-        for m in mods:
+        if sc.get('bus'):
+            # the thread belongs to a communicator-like module that is not polled itself (enablePoll = False)
+            bus_cls = type('Bus', (Module,), {'enablePoll': False})
+            main = bus_cls('bus', LoggerStub('bus'), {'description': ''}, Srv())
+            for m in mods:
+                m.io = main
+            mods_all = [main] + mods
+        else:
+            main = mods[0]
+            for m in mods[1:]:
+                m.io = main           # modules share the poll thread of their io module
+            mods_all = mods
+        for m in mods_all:
             m.earlyInit()
-        for m in mods:
+        for m in mods_all:
             m.initModule()
 
         def boot_thread():
